@@ -191,8 +191,8 @@ structure St where
   sht : ExTxn Nat KV.Cmd KV.Val
   shstore : KV.Store
   rstore : KV.Store
-  /-- which tree the connection-level machine follows: false = the current one, true = with the
-      proposed fix "a protocol error between MULTI and EXEC flags the transaction" -/
+  /-- which tree the connection-level machine follows: false = the pinned commit, true = the
+      current tree (fix 6b9d6a7: a protocol error between MULTI and EXEC flags the transaction) -/
   protoFlags : Bool
 
 def St.init : St :=
